@@ -1,0 +1,12 @@
+//go:build verif
+
+package tls
+
+// VerifPendingEvents reports how many events NextEvent would return before
+// QUICNoEvent. It must only be called between API calls of the UQUICConn (the
+// handshake goroutine is then blocked or has ended), like NextEvent itself.
+// Used by the C23 correspondence runner to learn how many events one API call
+// created without having to drain the queue after every call.
+func (q *UQUICConn) VerifPendingEvents() int {
+	return len(q.conn.quic.events) - q.conn.quic.nextEvent
+}
